@@ -140,7 +140,7 @@ def _abstract_outputs(self):
     return [(o.value, o.lock_script) for o in self.outputs]
 
 
-def _real_tx(self):
+def _real_tx(self, keep_index=False):
     """native replay: build a real Transaction with the concretised fields"""
     from bitcoinlib.transactions import Transaction, Input, Output
     f = self.fields
@@ -161,7 +161,7 @@ def _real_tx(self):
     t = Transaction(ins, outs, locktime=f['locktime'], version=f['version'], witness_type=f.get('witness_type', 'segwit'))
     t.version = f['version']
     for k, i in enumerate(t.inputs):
-        i.index_n = k
+        i.index_n = f['inputs'][k].fields['index_n'] if keep_index else k
     return t
 
 
@@ -260,6 +260,46 @@ def _legacy_case(n_in, n_out, sign_id, script_type):
 
 LEGACY_CASES = [_legacy_case(a, b, c, st)._contract.key for a in (1, 2, 3) for b in (0, 1, 2) for c in range(a)
                 for st in ('sig_pubkey', 'p2sh_multisig')]
+
+_InRecLegacyAnyIndex = RecordOf(Input, prev_txid=Bytes(32), output_n=Bytes(4), sequence=Int(0, 2 ** 32 - 1), value=Int(0, MAX_MONEY),
+                                script_type=Const('sig_pubkey'), witness_type=Const('legacy'), redeemscript=Bytes(max=10000),
+                                locking_script=Bytes(max=10000), witnesses=Const([]), unlocking_script=Bytes(max=10000),
+                                index_n=Int(0, 2 ** 32 - 1))
+
+
+def _legacy_anyindex_case(n_in, k):
+    """Transaction.raw selects the signed input by its index_n label, not by position: for every labelling of the inputs with distinct
+    32-bit numbers (a transaction with many inputs reaches every label), asking for the label of input k gives the preimage with input
+    k's script code.  The requested label is a separate argument that is merely EQUAL to the label (as the int produced by range() in
+    Transaction.sign is)."""
+    name = 'legacy-anyindex-in%d-sign%d' % (n_in, k)
+    TxT = RecordOf(Transaction, version=Bytes(4), locktime=Int(0, 2 ** 32 - 1), witness_type=Const('legacy'), size=Const(None),
+                   inputs=FixedList(_InRecLegacyAnyIndex, n_in), outputs=FixedList(_OutRec, 1))
+
+    def requires(self, sign_id):
+        labels = [x.index_n for x in self.inputs]
+        distinct = True
+        for a in range(len(labels)):
+            for b in range(a + 1, len(labels)):
+                distinct = distinct and labels[a] != labels[b]
+        return distinct and sign_id == labels[k]
+
+    def result_is(self, sign_id):
+        return sighash.legacy_all_preimage(int.from_bytes(self.version, 'big'), _abstract_inputs(self), _abstract_outputs(self), self.locktime,
+                                           k, self.inputs[k].locking_script)
+
+    def pin_varstr(self, sign_id, result):
+        return result == sighash.legacy_all_preimage(int.from_bytes(self.version, 'big'), _abstract_inputs(self), _abstract_outputs(self),
+                                                     self.locktime, k, self.inputs[k].locking_script, sighash.varstr_as_observed)
+
+    d = {'params': {'self': TxT, 'sign_id': Int(0, 2 ** 32 - 1)}, 'kwargs': {'hash_type': 1, 'witness_type': 'legacy'}, 'requires': requires,
+         'result_is': result_is, 'pins': {'F-varstr-00': pin_varstr},
+         'prepare': lambda self, sign_id: {'self': _real_tx(self, keep_index=True)},
+         '__doc__': 'legacy SIGHASH_ALL preimage for the input labelled sign_id (input %d of %d), any labelling' % (k, n_in)}
+    return contract('bitcoinlib.transactions.Transaction.raw', case=name, props=('C01',))(type(name, (), d))
+
+
+LEGACY_ANYINDEX_CASES = [_legacy_anyindex_case(a, c)._contract.key for a in (1, 2, 3) for c in range(a)]
 
 
 def _sighash_case(tx_witness, arg_witness):
